@@ -653,14 +653,15 @@ bool MemoryLeakDetector::matchingAllocation(TestMemoryAllocator *alloc_allocator
     return free_allocator->isOfEqualType(alloc_allocator);
 }
 
-void MemoryLeakDetector::checkForCorruption(MemoryLeakDetectorNode* node, const char* file, size_t line, TestMemoryAllocator* allocator, bool allocateNodesSeperately)
+bool MemoryLeakDetector::checkForCorruption(MemoryLeakDetectorNode* node, const char* file, size_t line, TestMemoryAllocator* allocator)
 {
     if (!matchingAllocation(node->allocator_->actualAllocator(), allocator->actualAllocator()))
         outputBuffer_.reportAllocationDeallocationMismatchFailure(node, file, line, allocator->actualAllocator(), reporter_);
     else if (!validMemoryCorruptionInformation(node->memory_ + node->size_))
         outputBuffer_.reportMemoryCorruptionFailure(node, file, line, allocator->actualAllocator(), reporter_);
-    else if (allocateNodesSeperately)
-        allocator->freeMemoryLeakNode((char*) node);
+    else
+        return true;
+    return false;
 }
 
 char* MemoryLeakDetector::allocMemory(TestMemoryAllocator* allocator, size_t size, bool allocatNodesSeperately)
@@ -730,7 +731,8 @@ void MemoryLeakDetector::deallocMemory(TestMemoryAllocator* allocator, void* mem
 #endif
     if (!allocator->hasBeenDestroyed()) {
         size_t size = node->size_;
-        checkForCorruption(node, file, line, allocator, allocatNodesSeperately);
+        if (checkForCorruption(node, file, line, allocator) && allocatNodesSeperately)
+            allocator->freeMemoryLeakNode((char*) node);
         allocator->free_memory((char*) memory, size, file, line);
     }
 }
@@ -757,15 +759,24 @@ char* MemoryLeakDetector::reallocMemory(TestMemoryAllocator* allocator, char* me
 #ifdef CPPUTEST_DISABLE_MEM_CORRUPTION_CHECK
    allocatNodesSeperately = true;
 #endif
+    MemoryLeakDetectorNode* node = NULLPTR;
+    bool intact = true;
     if (memory) {
-        MemoryLeakDetectorNode* node = memoryTable_.removeNode(memory);
+        node = memoryTable_.removeNode(memory);
         if (node == NULLPTR) {
             outputBuffer_.reportDeallocateNonAllocatedMemoryFailure(file, line, allocator, reporter_);
             return NULLPTR;
         }
-        checkForCorruption(node, file, line, allocator, allocatNodesSeperately);
+        intact = checkForCorruption(node, file, line, allocator);
     }
-    return reallocateMemoryAndLeakInformation(allocator, memory, size, file, line, allocatNodesSeperately);
+    char* new_memory = reallocateMemoryAndLeakInformation(allocator, memory, size, file, line, allocatNodesSeperately);
+    if (node) {
+        if (new_memory == NULLPTR)
+            memoryTable_.addNewNode(node); /* a failed realloc leaves the old block untouched: it stays tracked */
+        else if (intact && allocatNodesSeperately)
+            allocator->freeMemoryLeakNode((char*) node);
+    }
+    return new_memory;
 }
 
 void MemoryLeakDetector::ConstructMemoryLeakReport(MemLeakPeriod period)
